@@ -41,6 +41,12 @@ Record Inv (s : st) : Prop := {
   H8 : forall a k, ahome (A s a) = HFast k -> k < nexts s /\ spc_ (Sb s k) = SFastT a;
   H9 : forall k a, k < nexts s -> spc_ (Sb s k) = SFastT a -> ahome (A s a) = HFast k;
   H10 : forall a, ahome (A s a) = HAwake <-> aawake (A s a) = true;
+  H11 : forall c a, ahome (A s c) = HCan a -> exists f, Cn s a = Cn3 f c;
+  H12 : forall a f c, Cn s a = Cn3 f c -> ahome (A s c) = HCan a;
+  H13 : forall c k, ahome (A s c) = HKCan k -> k < nexts s /\ exists f, spc_ (Sb s k) = SCan4 f c;
+  H14 : forall k f c, k < nexts s -> spc_ (Sb s k) = SCan4 f c -> ahome (A s c) = HKCan k;
+  HC : forall a f c, Cn s a = Cn3 f c -> afd (A s c) = f;
+  HK4 : forall k f c, k < nexts s -> spc_ (Sb s k) = SCan4 f c -> afd (A s c) = f;
   HF : forall k c, k < nexts s -> spc_ (Sb s k) = SFastT c -> afd (A s c) = sfd (Sb s k);
   HS : forall g f c, Sel s g = SEvT f c -> afd (A s c) = f;
   J : forall a, inJ (apc (A s a)) = true -> avail s (A s a) ->
@@ -175,6 +181,27 @@ Proof.
   - destruct (aawake (A s c)) eqn:W; [|reflexivity]. apply (H10 _ I) in W. congruence.
   - intros f' E'. apply (H5 _ I) in E'. congruence.
 Qed.
+(* a coroutine in the hands of a canceller, between its take and the disarm + schedule *)
+Lemma can_facts a f c : Cn s a = Cn3 f c ->
+  ahome (A s c) = HCan a /\ apc (A s c) = Susp /\ aawake (A s c) = false /\ (forall f', co s f' <> Some c) /\
+  busy s (afd (A s c)) = Some c /\ afd (A s c) = f.
+Proof.
+  intros E. pose proof (H12 _ I _ _ _ E) as Hh. pose proof (HC _ I _ _ _ E) as Hfd.
+  assert (Hs : apc (A s c) = Susp) by (apply home_susp; rewrite Hh; discriminate).
+  repeat split; auto; try (apply susp_busy; exact Hs).
+  - destruct (aawake (A s c)) eqn:W; [|reflexivity]. apply (H10 _ I) in W. congruence.
+  - intros f' E'. apply (H5 _ I) in E'. congruence.
+Qed.
+Lemma kcan_facts k f c : k < nexts s -> spc_ (Sb s k) = SCan4 f c ->
+  ahome (A s c) = HKCan k /\ apc (A s c) = Susp /\ aawake (A s c) = false /\ (forall f', co s f' <> Some c) /\
+  busy s (afd (A s c)) = Some c /\ afd (A s c) = f.
+Proof.
+  intros L E. pose proof (H14 _ I _ _ _ L E) as Hh. pose proof (HK4 _ I _ _ _ L E) as Hfd.
+  assert (Hs : apc (A s c) = Susp) by (apply home_susp; rewrite Hh; discriminate).
+  repeat split; auto; try (apply susp_busy; exact Hs).
+  - destruct (aawake (A s c)) eqn:W; [|reflexivity]. apply (H10 _ I) in W. congruence.
+  - intros f' E'. apply (H5 _ I) in E'. congruence.
+Qed.
 (* the coroutine of a subscriber that has not published it yet *)
 Lemma sub_facts k : k < nexts s -> spc_ (Sb s k) = SArm \/ spc_ (Sb s k) = SStore ->
   ahome (A s (sa (Sb s k))) = HSub k /\ afd (A s (sa (Sb s k))) = sfd (Sb s k) /\ apc (A s (sa (Sb s k))) = Susp /\
@@ -226,6 +253,8 @@ Ltac facts_gen cap peer selof I :=
   | E : co ?s ?f = Some ?c |- _ => pose_new (slot_facts cap peer selof s I f c E)
   | E : Sel ?s ?g = SEvT ?f ?c |- _ => pose_new (sel_facts cap peer selof s I g f c E)
   | L : ?k < nexts ?s, E : spc_ (Sb ?s ?k) = SFastT ?c |- _ => pose_new (fast_facts cap peer selof s I k c L E)
+  | E : Cn ?s ?a = Cn3 ?f ?c |- _ => pose_new (can_facts cap peer selof s I a f c E)
+  | L : ?k < nexts ?s, E : spc_ (Sb ?s ?k) = SCan4 ?f ?c |- _ => pose_new (kcan_facts cap peer selof s I k f c L E)
   | L : ?k < nexts ?s, E : spc_ (Sb ?s ?k) = SArm |- _ => pose_new (sub_facts cap peer selof s I k L (or_introl E))
   | L : ?k < nexts ?s, E : spc_ (Sb ?s ?k) = SStore |- _ => pose_new (sub_facts cap peer selof s I k L (or_intror E))
   | E : aawake (A ?s ?a) = true |- _ => pose_new (awake_facts cap peer selof s I a E)
